@@ -96,4 +96,43 @@ example : Valid ecoCfg ∧ 0 < ecoCfg.tooLow ∧ Poupool.Sensor.Valid ⟨83, 166
   refine ⟨config_valid.1, by decide, by decide, ?_⟩
   intro r hr; simp at hr; exact hr
 
+/-- The converse direction, end to end on the models (no false alarm, no false refill): a level sensor that fails some of its ten
+attempts while every successful one reads at least the raw count `x` of `p` percent gives a value of at least `p` percent
+(`SensorProps.high_readings_read_high`); whatever integer `h` stands for that value in the unit of the thresholds, if `p` percent is at
+least `low − hysteresis` the poll of `normal` does not go to `low` (the mains valve stays closed), the poll of `high` at `p ≥ high − hyst`
+stays in `high`, and in `low` the emergency stop is requested only by the 6 h limit, never by the too-low branch. -/
+theorem flaky_sensor_no_false_alarm (c : Cfg) (hv : Valid c)
+    (s : Poupool.Sensor.Cfg) (hs : Poupool.Sensor.Valid s) (reads : List (Option Int)) (x p : Int) (hp : p ≤ 100)
+    (hx : p * (s.high - s.low) ≤ (x - s.low) * 100) (hall : ∀ r ∈ Poupool.Sensor.good reads, x ≤ r) (hne : Poupool.Sensor.good reads ≠ [])
+    (h unit tis : Int) (hunit : 0 < unit) (hrep : h * (Poupool.Sensor.value s reads).2 = (Poupool.Sensor.value s reads).1 * unit) :
+    (c.low - c.hyst ≤ p * unit → pollNormal c h ≠ .toLow) ∧
+    (c.high - c.hyst ≤ p * unit → pollHigh c h ≠ .toNormal) ∧
+    (c.tooLow ≤ p * unit → tis ≤ sixHours → pollLow c h tis ≠ .emergency) := by
+  have hnb := Poupool.SensorProps.high_readings_read_high s hs reads x p hp hx hall hne
+  obtain ⟨hd, _, _⟩ := Poupool.SensorProps.value_in_range s hs reads
+  have hge : p * unit ≤ h := by
+    unfold Poupool.Sensor.below at hnb
+    have h1 : p * (Poupool.Sensor.value s reads).2 ≤ (Poupool.Sensor.value s reads).1 := by omega
+    have h2 : (p * (Poupool.Sensor.value s reads).2) * unit ≤ (Poupool.Sensor.value s reads).1 * unit :=
+      Int.mul_le_mul_of_nonneg_right h1 (by omega)
+    have h3 : (p * unit) * (Poupool.Sensor.value s reads).2 ≤ h * (Poupool.Sensor.value s reads).2 := by
+      rw [hrep, Int.mul_right_comm]; exact h2
+    exact Int.le_of_mul_le_mul_right h3 hd
+  obtain ⟨h0, h1, h2⟩ := hv
+  refine ⟨?_, ?_, ?_⟩
+  · intro ht; unfold pollNormal
+    rw [if_neg (by omega)]
+    split <;> simp
+  · intro ht; unfold pollHigh
+    rw [if_neg (by omega)]; simp
+  · intro ht hts; unfold pollLow
+    rw [if_neg (by omega)]
+    split
+    · simp
+    · rw [if_neg (by omega)]; simp
+
+/-- non-vacuity with the shipped calibration and the eco level set: six attempts out of ten fail, the others read ≥ 40 % -/
+example : Poupool.Sensor.Valid ⟨83, 1665⟩ ∧ (40 : Int) * (1665 - 83) ≤ (716 - 83) * 100 ∧
+    Poupool.Sensor.good [some 716, none, some 900, none, none, some 4095, none, none, some 800, none] ≠ [] := by decide
+
 end Poupool.C04
